@@ -107,6 +107,7 @@ func runC04(c *Ctx) {
 		n = 200000
 	}
 	hist := map[string]int{}
+	treeEvery = 40
 	for _, sch := range c04Schemes {
 		htmlWriterCases(c, []byte(sch))
 	}
